@@ -37,7 +37,13 @@ CmpVecs == SetToSeq({[k |-> "cmp", a |-> a, b |-> b] : a \in Vers \cup Literals,
            \o TextVecs
 
 \* C03: every string over the alphabet
-ParseVecs == SetToSeq({[k |-> "parse", s |-> s] : s \in Strings})
+\* characters beyond U+00FF whose LOW BYTE is a letter or digit (U+0131 -> '1', U+0141 -> 'A', U+0431 -> '1', U+4E30 -> '0'),
+\* as UTF-8, in the revision and in the upstream part: outside the Policy alphabet all the same
+UniChars == {<<196, 177>>, <<197, 129>>, <<208, 177>>, <<228, 184, 176>>, <<239, 188, 145>>}
+UniTexts == {<<49, 46, 48, HYPHEN>> \o c \o <<49>> : c \in UniChars} \cup {<<49, 46, 48, HYPHEN, 49>> \o c \o <<98, 50>> : c \in UniChars}
+            \cup {<<49, 46, 48, HYPHEN>> \o c : c \in UniChars}                  \* (at the very end: unspecified, it might be white space)
+            \cup {<<49>> \o c \o <<HYPHEN, 49>> : c \in UniChars} \cup {<<50, COLON, 49, 46>> \o c \o <<46, 51>> : c \in UniChars}
+ParseVecs == SetToSeq({[k |-> "parse", s |-> s] : s \in Strings \cup UniTexts})
 
 ASSUME Emit(CASE Mode = "domain" -> DomainVec
               [] Mode = "cmp" -> CmpVecs
